@@ -77,7 +77,7 @@ example : ∃ (_ : Trig ℝ) (_ : Transc ℝ), (Scalar.ofNat 0 : ℝ) = 0 ∧
     (∀ y x : ℝ, Trig.atan2 y x = TrigScalar.atan2 y x) ∧ ((Trig.pi : ℝ) = TrigScalar.pi) ∧
     (∀ y x : ℝ, Transc.atan2 y x = TrigScalar.atan2 y x) ∧ ((Transc.pi : ℝ) = TrigScalar.pi) :=
   ⟨⟨Real.sin, Real.cos, TrigScalar.atan2, Real.arccos, Real.tan, TrigScalar.pi⟩,
-   ⟨Real.sin, Real.cos, Real.arctan, TrigScalar.atan2, Real.exp, Real.log, fun x _ => x, TrigScalar.pi⟩,
+   ⟨Real.sin, Real.cos, fun x => x, TrigScalar.atan2, Real.exp, Real.log, fun x _ => x, TrigScalar.pi⟩,
    by simp, fun _ _ => rfl, rfl, fun _ _ => rfl, rfl⟩
 
 /-- corresponding states exist and stay corresponding under an allocation (`Sim`, hypothesis of
